@@ -13,11 +13,15 @@
 (*                the leaves x, y, s, q, 0, 1, -1, 2, 1/2 and + - * /:     *)
 (*                  Depth >= 1: every leaf and every op(leaf, leaf)        *)
 (*                  Depth >= 2: op(D1, leaf) and op(leaf, D1)              *)
-(*                  Depth >= 3: op(D1, D1)   (all of depth 2)              *)
+(*                  Depth >= 3: op(D1, D1)   (all of depth 2; only those   *)
+(*                              that mention q, on configuration 1 only)   *)
 (*                restricted to expressions that mention x or y (an        *)
 (*                expression without fluents has nothing to be judged)     *)
 (*                and that contain no division by a literally zero closed  *)
 (*                sub-expression (the ExpressionManager refuses them).     *)
+(*                Each case names the configurations it is to be run on    *)
+(*                (RunOn: one per class of configurations that declare     *)
+(*                everything the expression mentions identically).         *)
 (* Constants: Depth, Tier ("quick" | "thorough" selects the configs).      *)
 (***************************************************************************)
 EXTENDS LinearAnalysis, Json, IOUtils, SequencesExt
@@ -77,9 +81,9 @@ QTag(qr) == IF qr[2] < 0 THEN "q<0" ELSE IF qr[1] > 0 THEN "q>0" ELSE IF qr[1] =
 Cfg(tag, xr, yr, qr, st, sv) == [tag |-> tag, qtag |-> QTag(qr), scope |-> "a", P |-> Prob(xr, yr, qr, st, sv)]
 S5 == IntT(0 - 5, 5)
 QuickCfgs == <<
-   Cfg("q<0 s<0", <<0 - 1, 2>>, <<1, 3>>, <<0 - 3, 0 - 1>>, S5, NV(0 - 2, 1)),
-   Cfg("q straddles 0 s>0", <<0 - 1, 2>>, <<1, 3>>, <<0 - 1, 2>>, S5, NV(2, 1)),
-   Cfg("q>0 s<0", <<0 - 1, 2>>, <<1, 3>>, <<1, 3>>, S5, NV(0 - 2, 1))>>
+   Cfg("q<0 s<0", <<0 - 1, 1>>, <<1, 3>>, <<0 - 3, 0 - 1>>, S5, NV(0 - 2, 1)),
+   Cfg("q straddles 0 s>0", <<0 - 1, 1>>, <<1, 3>>, <<0 - 1, 2>>, S5, NV(2, 1)),
+   Cfg("q>0 s<0", <<0 - 1, 1>>, <<1, 3>>, <<1, 3>>, S5, NV(0 - 2, 1))>>
 MoreCfgs == <<
    Cfg("q<0 s>0 x<0", <<0 - 3, 0 - 1>>, <<0, 2>>, <<0 - 3, 0 - 1>>, S5, NV(2, 1)),
    Cfg("q>=0 s=-1/2", <<0 - 1, 2>>, <<1, 3>>, <<0, 2>>, RealT(0 - 5, 5), NV(0 - 1, 2)),
@@ -95,7 +99,7 @@ Calibrated ==
        G == GridOf(P, "a")
        P2 == QuickCfgs[2].P               \* q in [-1,2]
        G2 == GridOf(P2, "a")
-   IN /\ Len(G.pts) = 4 * 3 * 3 /\ G.ns = {1, 2}
+   IN /\ Len(G.pts) = 3 * 3 * 3 /\ G.ns = {1, 2}
       /\ Monotone(P, X, "x", "up", G) /\ ~Monotone(P, X, "x", "down", G)
       /\ Monotone(P, X, "y", "up", G) /\ Monotone(P, X, "y", "down", G)
       /\ Monotone(P, EB("div", X, Q), "x", "down", G) /\ ~Monotone(P, EB("div", X, Q), "x", "up", G)
@@ -117,8 +121,23 @@ Calibrated ==
 ASSUME Calibrated
 
 ASSUME ndJsonSerialize(IOEnv.CFGS, Cfgs)
-ASSUME ndJsonSerialize(IOEnv.CASES, SetToSeq({[e |-> e] : e \in Space}))
-ASSUME PrintT(<<"EMITTED", Len(Cfgs), Cardinality(Space)>>)
+\* ---------- which configurations an expression is run on ----------
+\* Two configurations that declare everything e mentions identically give the same case: e is run
+\* on the first configuration of every such class only.
+RECURSIVE ParamNames(_)
+ParamNames(e) == (IF e.op = "param" THEN {e.name} ELSE {}) \cup UNION {ParamNames(e.args[i]) : i \in DOMAIN e.args}
+Decl(c, n) == LET P == Cfgs[c].P IN
+              IF n \in FlNames(P) THEN [f |-> P.fluents[FlIdx(P, n)], st |-> IsStatic(P, FlIdx(P, n))]
+              ELSE [f |-> ParType(P, Cfgs[c].scope, n), st |-> FALSE]
+SameOn(e, c1, c2) == \A n \in FluentNames(e) \cup ParamNames(e) : Decl(c1, n) = Decl(c2, n)
+RunOn(e) == {c \in DOMAIN Cfgs : \A c2 \in 1..(c - 1) : ~SameOn(e, c, c2)}
+\* the full depth 2 (Depth = 3) is only run on the first configuration, and only where e mentions the parameter
+Big(e) == Size(e) > 5
+Case(e) == [e |-> e, cfgs |-> SetToSeq(IF Big(e) THEN RunOn(e) \cap {1} ELSE RunOn(e))]
+Cases == {Case(e) : e \in {f \in Space : Big(f) => "q" \in ParamNames(f)}}
+
+ASSUME ndJsonSerialize(IOEnv.CASES, SetToSeq(Cases))
+ASSUME PrintT(<<"EMITTED", Len(Cfgs), Cardinality(Cases)>>)
 VARIABLE dummy
 Init == dummy = 0
 Next == UNCHANGED dummy
